@@ -158,3 +158,4 @@ def verify_hyperparameters(num_buckets=None,
         raise ValueError(
             "Monotonicities should be pairs of be indices in range "
             "[0, num_buckets). They are: {}".format(monotonicities))
+    internal_utils.verify_acyclic(monotonicities)
